@@ -832,7 +832,7 @@ func runCase(t failer, name string, c Case, src issuer.Source, seed string) {
 	for _, cl := range classes(c) {
 		evid.Count(cl, 1)
 	}
-	evid.Case("profile", true, c.key(), nil)
+	evid.CaseFn("profile", true, c.key(), func() any { return c })
 	if msg == "" {
 		return
 	}
